@@ -158,6 +158,10 @@ class ExprMixin:
                     return Const(('ptype', val.args[0].value))
                 return nf.sym(f'lentil.{nm}')
             val = m.globals[nm]
+            from .interp import namedtuple_fields
+            ntf = namedtuple_fields(m, nm)
+            if ntf is not None:
+                return Const(('namedtuple', nm, ntf))
             if isinstance(val, ast.Constant) and isinstance(val.value, (int, float)):
                 if self.symbolic_globals and (self.symbolic_globals is True and nm in PHYSICAL_CONSTANTS
                                               or (self.symbolic_globals is not True and nm in self.symbolic_globals)):
@@ -545,6 +549,14 @@ class ExprMixin:
         return None
 
     def load_attr(self, base, name, st, node):
+        if isinstance(base, Poly):
+            ba = base.single_atom()
+            if ba is not None and ba[0] == 'app' and ba[1].startswith('call:') and self.repo.has_func(ba[1][5:]):
+                # the result of a package function that returns a namedtuple: .field is item k of the returned tuple
+                from .interp import returned_namedtuple_fields
+                fl = returned_namedtuple_fields(self.repo, self.repo.func(ba[1][5:]))
+                if fl is not None and name in fl:
+                    return nf.index(base, Poly.const(fl.index(name)))
         if isinstance(base, Const) and isinstance(base.value, tuple) and base.value[0] == 'module':
             tgt = self.repo.resolve_dotted(f'lentil.{base.value[1]}.{name}')
             return self.target_value(tgt, name)
@@ -574,6 +586,9 @@ class ExprMixin:
             if name in ('start', 'stop', 'step'):
                 return {'start': base.lo, 'stop': base.hi, 'step': base.step}[name]
         if isinstance(base, Tup):
+            from .interp import NT_FIELDS
+            if name in NT_FIELDS.get(base.key, ()):
+                return base.items[NT_FIELDS[base.key].index(name)]
             if name == 'shape':
                 return Tup([Poly.const(len(base))])
             if name == 'size':
